@@ -34,7 +34,8 @@
 From Verif Require Import Base.Prelude Base.GoSem.
 Open Scope Z_scope.
 
-Inductive errv := ErrFmt (fmt : list N) | ErrEOF.
+(* ErrNamed: a package-level sentinel error of the standard library (io.ErrShortWrite ...), compared by name *)
+Inductive errv := ErrFmt (fmt : list N) | ErrEOF | ErrNamed (name : list N).
 Definition goerr := option errv.          (* Go's `error`; nil = None *)
 Definition err_isnil (e : goerr) : bool := match e with None => true | Some _ => false end.
 
